@@ -70,9 +70,22 @@ let check inp obs =
       let rec first_bad g i = function
         | [] -> None
         | (o, ob) :: r -> if step_ok hba g o ob then first_bad (track hba g o ob) (i + 1) r else Some (i, g) in
-      let prop = check c impl in
-      let bad = first_bad (ghost0 c.c_pages) 0 impl in
-      (match bad with Some _ when prop -> fail "C28: check/step_ok disagree" | None when not prop -> fail "C28: check/step_ok disagree" | _ -> ());
+      (* C28_spec is stated for configurations that start with at most 65536 pages *)
+      let in_scope = int_of_n c.c_pages <= 65536 in
+      let prop_main = (not in_scope) || check c impl in
+      let bad = if in_scope then first_bad (ghost0 c.c_pages) 0 impl else None in
+      (match bad with Some _ when prop_main -> fail "C28: check/step_ok disagree" | None when not prop_main -> fail "C28: check/step_ok disagree" | _ -> ());
+      (* the unconditional part (C28_unconditional): evaluated on every trace, void or not *)
+      let rec first_bad_u dead pg i = function
+        | [] -> None
+        | (o, ob) :: r ->
+          if uncond_ok dead pg o ob then first_bad_u (dead || (is_call o && is_err ob.o_res)) ob.o_pages (i + 1) r
+          else Some i in
+      let prop_u = check_uncond c impl in
+      let bad_u = first_bad_u false c.c_pages 0 impl in
+      (match bad_u with Some _ when prop_u -> fail "C28: check_uncond/uncond_ok disagree" | None when not prop_u -> fail "C28: check_uncond/uncond_ok disagree" | _ -> ());
+      let prop = prop_main && prop_u in
+      if int_of_n c.c_max > 65536 then tag "memory-max-above-4GiB";
       (* final ghost for tags *)
       let gfin = List.fold_left (fun g (o, ob) -> track hba g o ob) (ghost0 c.c_pages) impl in
       if gfin.g_void then tag "void-assumption-broken";
@@ -101,6 +114,9 @@ let check inp obs =
           (match bad with Some (i, _) ->
              Buffer.add_string b (Printf.sprintf "property fails at op %d (%s -> %s); " i (List.nth optoks i) (List.nth obtoks i))
            | None -> ());
+          (match bad_u with Some i ->
+             Buffer.add_string b (Printf.sprintf "unconditional part (poisoning / 32 MiB / 4 GiB) fails at op %d (%s -> %s); " i (List.nth optoks i) (List.nth obtoks i))
+           | None -> ());
           if not eq then begin
             let rec firstdiff i a b' = match a, b' with
               | x :: a', y :: b'' -> if x = y then firstdiff (i + 1) a' b'' else Some (i, x, y)
@@ -117,6 +133,49 @@ let check inp obs =
       { prop_ok = prop; model_eq = eq; nontrivial = (!succ >= 3); finding = "-";
         tags = String.concat "," (List.sort compare tl); detail }
     end
+  | ["cst"] ->
+    let model = String.concat " " (List.map hex_of_n
+      [nil_marker; n_of_int 8; header_size; num_orders; min_alloc; max_alloc; page_size; max_wasm_pages]) in
+    { prop_ok = true; model_eq = (model = obs); nontrivial = false; finding = "-"; tags = "constants";
+      detail = if model = obs then "" else "constants differ: Model.v has " ^ model ^ ", the Go package has " ^ obs }
   | _ -> fail "C28: bad input %s" inp
 
-let () = run_driver check
+(* vm_compute cross-check of the extraction: the same operations (pointer references resolved
+   from the implementation's answers, as above) are run by Model.run inside Coq and compared
+   with the implementation's observations (Model.vm_case) *)
+let coq inp obs =
+  match split_ws inp with
+  | "seq" :: hb :: pages :: max :: optoks ->
+    let n = List.length optoks in
+    let obtoks = if obs = "-" then [] else split_ws obs in
+    if List.length obtoks <> n || n = 0 || n > 80 then None else begin
+      let obsl = List.map parse_obs obtoks in
+      let ptrs = Array.make (n + 1) 0 in
+      let cn x = coq_n (n_of_int x) in
+      let ops = List.mapi (fun i (tok, ob) ->
+        (match ob.o_res with RPtr p -> ptrs.(i) <- int_of_n p | _ -> ());
+        let base j = if j < i then ptrs.(j) else 0 in
+        match String.split_on_char ',' tok with
+        | ["a"; s] -> "OAlloc " ^ coq_n (n_of_hex s)
+        | ["f"; j; d] -> "OFree " ^ cn ((base (int_of_hex j) + int_of_shex d) land mask32)
+        | ["F"; p] -> "OFree " ^ coq_n (n_of_hex p)
+        | ["w"; j; off; v] -> Printf.sprintf "OWrite %s %s" (cn ((base (int_of_hex j) + int_of_hex off) land mask32)) (coq_n (n_of_hex v))
+        | ["r"; j; off] -> "ORead " ^ cn ((base (int_of_hex j) + int_of_hex off) land mask32)
+        | ["g"; k] -> "OGrow " ^ coq_n (n_of_hex k)
+        | ["S"; k] -> "OSetPages " ^ coq_n (n_of_hex k)
+        | _ -> fail "C28: bad op %s" tok) (List.combine optoks obsl) in
+      let coq_err e = (match e with
+        | EPoisoned -> "EPoisoned" | EShrunk -> "EShrunk" | ETooLarge -> "ETooLarge" | EHdrPtr -> "EHdrPtr"
+        | EReadHdr -> "EReadHdr" | EInvalidOrder -> "EInvalidOrder" | EOccInFree -> "EOccInFree" | EOOS -> "EOOS"
+        | EGrow -> "EGrow" | EWriteHdr -> "EWriteHdr" | EInvalidPtr -> "EInvalidPtr" | EEmptyHdr -> "EEmptyHdr"
+        | EUnderflow -> "EUnderflow" | EPanic -> "EPanic") in
+      let coq_res = function
+        | ROk -> "ROk" | RSkip -> "RSkip" | RErr e -> "RErr " ^ coq_err e
+        | RPtr p -> "RPtr " ^ coq_n p | RVal v -> "RVal " ^ coq_n v in
+      let obs' = List.map (fun ob -> Printf.sprintf "mkObs (%s) %s" (coq_res ob.o_res) (coq_n ob.o_pages)) obsl in
+      Some (Printf.sprintf "vm_case (mkCfg %s %s %s) [%s] [%s]" (coq_n (n_of_hex hb)) (coq_n (n_of_hex pages)) (coq_n (n_of_hex max))
+              (String.concat "; " ops) (String.concat "; " obs'))
+    end
+  | _ -> None
+
+let () = run_driver ~coq check
